@@ -14,7 +14,7 @@ func genCOp(kinds []string) *rapid.Generator[COp] {
 	return rapid.Custom(func(t *rapid.T) COp {
 		op := COp{Kind: rapid.SampledFrom(kinds).Draw(t, "k")}
 		if op.Kind != "clear" {
-			op.K = rapid.IntRange(0, 15).Draw(t, "key")
+			op.K = rapid.IntRange(0, 80).Draw(t, "key")
 		}
 		if op.Kind == "put" || op.Kind == "putNew" {
 			op.S = rapid.IntRange(0, 32).Draw(t, "s")
@@ -25,22 +25,27 @@ func genCOp(kinds []string) *rapid.Generator[COp] {
 
 func genCacheCase(t *rapid.T) CacheCase {
 	c := CacheCase{
-		Limit:    rapid.OneOf(rapid.IntRange(1, 12), rapid.IntRange(6, 12)).Draw(t, "limit"),
+		Limit:    rapid.OneOf(rapid.IntRange(1, 12), rapid.IntRange(6, 12), rapid.IntRange(1, 12), rapid.IntRange(13, 70)).Draw(t, "limit"),
 		SizeMode: rapid.SampledFrom([]string{"unit", "unit", "val"}).Draw(t, "sizeMode"),
 	}
 	c.Ops = rapid.SliceOfN(genCOp(copKinds), 0, 60).Draw(t, "ops")
+	if c.Limit > 12 {
+		// large caches: more operations so that the cache fills and cycles
+		more := rapid.SliceOfN(genCOp(copKinds), c.Limit, 3*c.Limit).Draw(t, "moreOps")
+		c.Ops = append(c.Ops, more...)
+	}
 	if rapid.IntRange(0, 2).Draw(t, "structured") > 0 {
 		// fill, touch a middle-aged key, remove a middle key, refill past the limit
 		var pre []COp
 		for k := 0; k < c.Limit+1; k++ {
 			pre = append(pre, COp{Kind: "put", K: k, S: 1})
 		}
-		pre = append(pre, COp{Kind: "get", K: rapid.IntRange(0, 15).Draw(t, "touch")},
-			COp{Kind: "remove", K: rapid.IntRange(0, 15).Draw(t, "rm")})
+		pre = append(pre, COp{Kind: "get", K: rapid.IntRange(0, 80).Draw(t, "touch")},
+			COp{Kind: "remove", K: rapid.IntRange(0, 80).Draw(t, "rm")})
 		mid := rapid.IntRange(0, len(c.Ops)).Draw(t, "mid")
 		ops := append(append([]COp{}, pre...), c.Ops[:mid]...)
 		for j := 0; j < 3; j++ {
-			ops = append(ops, COp{Kind: "putNew", K: rapid.IntRange(0, 15).Draw(t, "refill"), S: 1})
+			ops = append(ops, COp{Kind: "putNew", K: rapid.IntRange(0, 80).Draw(t, "refill"), S: 1})
 		}
 		c.Ops = append(ops, c.Ops[mid:]...)
 	}
